@@ -35,7 +35,10 @@ def handles_stages(ctx):
     graph_stage(ctx, "handles", "MC_Handles.tla", cfg, "handles", FS_ADAPTERS, walks, workers=8)
 
 
-def dirh_stages(ctx, adapters=("mem", "kvplain", "osref")):
+DIRH_ALL = ("mem", "kvplain", "osref", "oshp", "mntat", "mntbelow", "sub", "cache", "tar")
+
+
+def dirh_stages(ctx, adapters=DIRH_ALL):
     ks = [0, 3] if ctx.tier == "quick" else [0, 3, 5]
     for k in ks:
         graph_stage(ctx, "dirh-k%d" % k, "MC_DirH.tla", "DirH.k%d.cfg" % k, "dirh", list(adapters), workers=4)
